@@ -219,7 +219,8 @@ def run(res):
     res.cov['distinct_behaviours'] = res.traces
     res.cov['rule'] = ('every description of the family is an initial state; the scripted behaviours (four load modes, '
                        'repeated access, enable, second round on the same handle) take every edge of the dumped graph on '
-                       'the real classes; distinct = distinct (description, script)')
+                       'the real classes, with and without a preloaded disabled bystander world of the same map that is enabled '
+                       'before / after the world under test; distinct = distinct (description, script)')
 
 
 def replay(res, path):
